@@ -121,7 +121,7 @@ class MediaList(cssutils.util._NewListBase):
         # must be at least one value!
         if not atleastone:
             ok = False
-            self._wellformed = ok
+            # may raise: wellformed is set below only
             self._log.error('MediaQuery: No content.', error=xml.dom.SyntaxErr)
 
         self._wellformed = ok
